@@ -2,11 +2,23 @@
    Statements only. Compile-time half (which location the compiler records, and that it resolves through
    Module::get_card): proofs in Cao.CompilerTrace (some card of the function), Cao.CompilerOwner /
    CompilerOwnerProg (the very card that emitted the instruction; CallFunction = Call / DynamicCall card) and
-   Cao.C15Resolve (the module tree; the assembled theorem C15_error_trace_resolves at the end of this file).
-   Run-time half (which trace the VM reports): proofs in Cao.C15Proofs, over the VM model Cao.Vm. *)
+   Cao.C15Resolve (the module tree; the assembled theorem C15_error_trace_resolves).
+   Run-time half (which trace the VM reports): proofs in Cao.C15Proofs, over the VM model Cao.Vm.
+   Last section (Cao.CompilerOwnerFull / CompilerOwnerFullProg / C15Full, examples in C15FullExamples): the run list
+   is no longer a bare ghost - it is shown to be exactly the enumeration of all card positions of all functions of
+   the IR stream (C15_card_run_list_is_all_positions, C15_run_list_complete, C15_get_card_has_run), and every trace
+   entry is classified by two decidable tests (C15_compile_trace_classified, C15_error_trace_classified): owner /
+   N-C15-4 (jump of While, IfTrue, IfFalse, IfElse: names exactly the card's child 1) / N-C15-3 (function epilogue:
+   opcode class and location given exactly, C15_epilogue_resolution says what that location resolves to).
+   Still open: the runs are identified with the activations of process_card through the card tree (process_card
+   recurses once per get_child child; the list has one real execution per position) - there is no instrumented
+   compiler that logs activations; the synthetic leaf cards that compiler.rs feeds to process_card for Repeat
+   (ScalarInt 0 / 1) and for main's final Abort are, as in the model, instructions of the enclosing card / of the
+   epilogue; N-C15-2 (nested runs lose the location) is unchanged. *)
 From Coq Require Import List NArith ZArith.
 From Cao Require Import ListUtil Bits CardAst Bytecode Compiler Wellformed CompilerProofs CompilerTrace.
 From Cao Require CardEdit Vm C15Link C15Proofs C15Check CompilerOwner CompilerOwnerProg C15Resolve C15Examples.
+From Cao Require CompilerOwnerFull CompilerOwnerFullProg C15Full C15FullExamples.
 Import ListNotations.
 
 (* emit_index_sound, per function: while the cards of a function are compiled (process_cards, i.e. the
@@ -308,3 +320,175 @@ Theorem C15_while_jump_names_body :
     CardEdit.get_card C15Examples.while_module idx = CardEdit.ROk CScalarNil.
 Proof. exact C15Examples.while_jump_names_body. Qed.
 Print Assumptions C15_while_jump_names_body.
+
+(* ------------------------------------------------------------------ the run list is complete; total classification *)
+
+(* card_run_list_is_all_positions (CompilerOwnerFull.JF, read for one card): as C15_card_owns_its_instructions, but
+   the run list is no longer arbitrary: its (index, card) pairs are, in order, EXACTLY [subcards idx c] - c itself and
+   every card below it (children numbered as Card::get_child numbers them, closure bodies included), each once; and
+   the attribution is exact ([attrF]): the innermost run r containing the address of a pushed instruction carries
+   the location of index own_idx = (r's index, or 1 :: r's index if r's card is While / IfTrue / IfFalse / IfElse),
+   with an opcode in own_ops (those four cards: a jump; CallFunction only for Call / DynamicCall cards) *)
+Theorem C15_card_run_list_is_all_positions :
+  forall (cards : list card) (c : card) (idx : list N) (ctx : list card) (s s' : cstate),
+    cs_idx s = idx -> at_ctx cards idx (c :: ctx) -> cs_pc s = CompilerWf.bytes (cs_code s) ->
+    process_card c s = ROk tt s' -> (cs_pc s' <= Bits.two32)%N ->
+    exists (newx : list CompilerOwnerFull.oentry) (runs : list CompilerOwner.run),
+      cs_trace s' = map fst newx ++ cs_trace s /\
+      CompilerOwnerFull.oaddrs (cs_code s') (cs_pc s') =
+        map CompilerOwnerFull.oaddr newx ++ CompilerOwnerFull.oaddrs (cs_code s) (cs_pc s) /\
+      CompilerOwner.runs_in cards (cs_ns s) (cs_fn s) (cs_pc s) (cs_pc s') (cs_trace s) (cs_trace s') runs /\
+      map CompilerOwnerFull.rkey runs = CompilerOwnerFull.subcards idx c /\
+      Forall (CompilerOwnerFull.attrF runs [] (cs_ns s) (cs_fn s) (cs_pc s) (cs_pc s')) newx.
+Proof.
+  intros cards c idx ctx s s' Hi Hat Hpc Hrun Hg.
+  pose proof (CompilerOwnerFull.process_card_jf cards c idx ctx [] s Hi Hat Hpc) as H. rewrite Hrun in H.
+  destruct H as (_ & _ & _ & _ & _ & _ & H). exact (H Hg).
+Qed.
+Print Assumptions C15_card_run_list_is_all_positions.
+
+(* run_list_complete: a run list whose keys are those of the whole IR stream (what C15_compile_trace_classified
+   provides) holds a run, on that very card, for every card position the compiler can be at in any function of the
+   stream (at_ctx: a top-level card, or a get_child child of such a position) *)
+Theorem C15_run_list_complete :
+  forall (fs : list function_ir) (gruns : list CompilerOwnerProg.grun) (f : function_ir)
+         (idx : list N) (c : card) (ctx : list card),
+    map CompilerOwnerFullProg.gkeyof gruns = CompilerOwnerFullProg.stream_keys fs -> In f fs ->
+    at_ctx (fi_cards f) idx (c :: ctx) ->
+    exists r, In (f, r) gruns /\ CompilerOwner.r_idx r = idx /\ CompilerOwner.r_card r = c.
+Proof. exact C15Full.position_has_run. Qed.
+Print Assumptions C15_run_list_complete.
+
+(* ... in terms of Module::get_card: every card that get_card reaches in a function of the stream has a run, and the
+   location of that run's index is the looked-up location *)
+Theorem C15_get_card_has_run :
+  forall (fs : list function_ir) (gruns : list CompilerOwnerProg.grun) (f : function_ir) (sub : module)
+         (name : str) (fn : function) (indices : list nat) (c : card),
+    map CompilerOwnerFullProg.gkeyof gruns = CompilerOwnerFullProg.stream_keys fs -> In f fs ->
+    nth_error (m_functions sub) (fi_index f) = Some (name, fn) -> f_cards fn = fi_cards f ->
+    CardEdit.get_card sub {| ci_function := fi_index f; ci_indices := indices |} = CardEdit.ROk c ->
+    exists r, In (f, r) gruns /\ CompilerOwner.r_card r = c /\
+              CompilerOwner.mkl (fi_ns f) (fi_index f) (CompilerOwner.r_idx r) =
+                (fi_ns f, {| ci_function := fi_index f; ci_indices := indices |}).
+Proof. exact C15Full.get_card_has_run. Qed.
+Print Assumptions C15_get_card_has_run.
+
+(* compile_trace_classified: for B = compile M o below 2^32 bytes there are the IR stream fs and a run list gruns
+   with gruns_full: real executions of process_card on cards of functions of fs (as gruns_real), AND
+   map gkeyof gruns = stream_keys fs: one run per card position of every function, in compilation order; and every
+   trace entry (a, l) of B satisfies entry_classified, a case distinction by two boolean tests:
+     no_run_b gruns a          : a lies in no run (function epilogue, N-C15-3): the byte at a is Pop / CloseUpvalue /
+                                 ScalarNil / Return / Exit and l is the epilogue location epi_loc k f of the k-th
+                                 function f of fs (k = 0, main: index [number of cards mod 2^32]; k > 0: the index of
+                                 the last top-level card, or the empty index);
+     else, with (f, r) an innermost run containing a, l has the namespace and function index of f and
+     quirk (r_card r)          : (N-C15-4) the byte at a is Goto / GotoIfTrue / GotoIfFalse, l is exactly the index
+                                 of r's child 1 and resolves in M's tree to that child;
+     otherwise                 : l is exactly the index of r's card, resolves to r's card, and if the byte at a is
+                                 CallFunction then r's card is a Call / DynamicCall card *)
+Theorem C15_compile_trace_classified :
+  forall (M : module) (o : options) (B : compiled),
+    compile M o = COk B -> (N.of_nat (length (p_bytecode B)) <= Bits.two32)%N ->
+    exists fs gruns, C15Full.gruns_full M o B fs gruns /\
+      forall a l, In (a, l) (p_trace B) -> C15Full.entry_classified M B fs gruns a l.
+Proof. exact C15Full.compile_trace_classified. Qed.
+Print Assumptions C15_compile_trace_classified.
+
+(* a test on the entry alone: an entry whose opcode is neither a jump (28, 29, 30) nor one of the five epilogue
+   opcodes (16, 46, 7, 22, 10) names, exactly, the card whose activation emitted the instruction *)
+Theorem C15_plain_entry_names_owner :
+  forall (M : module) (B : compiled) (fs : list function_ir) (gruns : list CompilerOwnerProg.grun) (a : N) (l : loc),
+    C15Full.entry_classified M B fs gruns a l ->
+    C15Full.is_jump_byte (C15Resolve.byte_at B a) = false -> C15Full.is_epi_byte (C15Resolve.byte_at B a) = false ->
+    exists f r, CompilerOwnerProg.gdeepest gruns (f, r) a /\
+                l = CompilerOwner.mkl (fi_ns f) (fi_index f) (CompilerOwner.r_idx r) /\
+                C15Resolve.resolves_to M l (CompilerOwner.r_card r).
+Proof. exact C15Full.plain_entry_names_owner. Qed.
+Print Assumptions C15_plain_entry_names_owner.
+
+(* N-C15-3 characterised: what the epilogue locations resolve to, in a module whose function number fi_index f has
+   the cards of f: main's (fewer than 2^32 cards) - CardNotFound; another function's - its LAST top-level card (a
+   Timeout striking at the ScalarNil / Return of a called function names that card), InvalidIndex if it has none *)
+Theorem C15_epilogue_resolution :
+  forall (sub : module) (f : function_ir) (name : str) (fn : function),
+    nth_error (m_functions sub) (fi_index f) = Some (name, fn) -> f_cards fn = fi_cards f ->
+    ((N.of_nat (length (fi_cards f)) < Bits.two32)%N ->
+     CardEdit.get_card sub (snd (CompilerOwnerFullProg.epi_loc 0 f)) = CardEdit.RErr (CardEdit.CardNotFound 0)) /\
+    (forall k, CardEdit.get_card sub (snd (CompilerOwnerFullProg.epi_loc (S k) f)) =
+               match fi_cards f with
+               | [] => CardEdit.RErr CardEdit.InvalidIndex
+               | c :: r => CardEdit.ROk (last (c :: r) c)
+               end).
+Proof. exact C15Full.epilogue_resolution. Qed.
+Print Assumptions C15_epilogue_resolution.
+
+(* error_trace_classified: C15_error_trace_resolves with the complete run list (gruns_full) and the total
+   classification (entry_classified) of trace[0] and of the entry of every call frame *)
+Theorem C15_error_trace_classified :
+  forall (F : Vm.fops) (bld : Vm.build) (budget : nat) (M : module) (o : options) (B : compiled)
+         (s : Vm.state) (e : Vm.err) (t : list N) (s' : Vm.state),
+    compile M o = COk B -> (N.of_nat (length (p_bytecode B)) <= Bits.two32)%N ->
+    C15Proofs.frames_ok (C15Proofs.src_ok (C15Link.to_vm B)) s ->
+    Vm.run F bld budget (C15Link.to_vm B) s = (Vm.OErr e t, s') ->
+    (t = [] /\ e = Vm.ECallStackOverflow /\ Vm.push_frame s (Vm.mkFrame 0 0 0 None) = None) \/
+    exists fs gruns a s_fail s_start s0,
+      C15Full.gruns_full M o B fs gruns /\
+      map (C15Link.trace_loc B) t =
+        Vm.opt_list (C15Resolve.entry_at B a ::
+                     map (fun f => C15Resolve.entry_at B (Vm.fr_src f)) (Vm.st_calls s_fail)) /\
+      (forall l, C15Resolve.entry_at B a = Some l -> C15Full.entry_classified M B fs gruns a l) /\
+      Forall (fun f => (Vm.fr_src f = 0%N \/ C15Resolve.byte_at B (Vm.fr_src f) = 11%N \/
+                        exists label, Vm.assoc label (Vm.p_labels (C15Link.to_vm B)) = Some (Vm.fr_src f)) /\
+                       forall l, C15Resolve.entry_at B (Vm.fr_src f) = Some l ->
+                                 C15Full.entry_classified M B fs gruns (Vm.fr_src f) l)
+             (Vm.st_calls s_fail) /\
+      Vm.push_frame s (Vm.mkFrame 0 0 0 None) = Some s_start /\
+      C15Proofs.reaches F bld (C15Link.to_vm B)
+        (Vm.run_at F bld (C15Link.to_vm B) false (N.of_nat budget) (pred Vm.max_depth)) 0
+        (Vm.set_rem s_start (N.of_nat budget)) a s0 /\
+      C15Proofs.fails_at F bld (C15Link.to_vm B)
+        (Vm.run_at F bld (C15Link.to_vm B) false (N.of_nat budget) (pred Vm.max_depth)) a s0 e s_fail.
+Proof. exact C15Full.error_trace_classified. Qed.
+Print Assumptions C15_error_trace_classified.
+
+(* example (vm_compute): main = [while 1 { if 2 { closure { if 3 { nil } else { abort } } } }], g = [7; 8], default
+   options. Every entry of the root namespace: (address, opcode byte, (function, indices), get_card result).
+   Owned entries resolve to the emitting card at every depth, closure body included; the jumps of While (9, 65), IfTrue
+   (23) and IfElse (42, 48) name the child 1 (N-C15-4); main's final Exit (70) carries [1] = [number of cards] and
+   resolves to nothing, g's ScalarNil / Return (89, 90) carry the index of g's last card (N-C15-3).
+   (Instances of the hypotheses of the theorems above: C15FullExamples.nested_compiles, nested_abort_has_run,
+   nested_entry_14_names_owner, nested_g_epilogue, chain_run_fails.) *)
+Theorem C15_example_nested_table :
+  C15FullExamples.root_table C15FullExamples.nested_module =
+    [(0, 5, (0, [0; 0]), Some (CScalarInt 1));
+     (9, 30, (0, [0; 1]), Some C15FullExamples.ex_iftrue);
+     (14, 5, (0, [0; 1; 0]), Some (CScalarInt 2));
+     (23, 30, (0, [0; 1; 1]), Some C15FullExamples.ex_closure);
+     (28, 28, (0, [0; 1; 1]), Some C15FullExamples.ex_closure);
+     (33, 5, (0, [0; 1; 1; 0; 0]), Some (CScalarInt 3));
+     (42, 30, (0, [0; 1; 1; 0; 1]), Some CScalarNil);
+     (47, 7, (0, [0; 1; 1; 0; 1]), Some CScalarNil);
+     (48, 28, (0, [0; 1; 1; 0; 1]), Some CScalarNil);
+     (53, 10, (0, [0; 1; 1; 0; 2]), Some CAbort);
+     (54, 7, (0, [0; 1; 1]), Some C15FullExamples.ex_closure);
+     (55, 22, (0, [0; 1; 1]), Some C15FullExamples.ex_closure);
+     (56, 42, (0, [0; 1; 1]), Some C15FullExamples.ex_closure);
+     (65, 28, (0, [0; 1]), Some C15FullExamples.ex_iftrue);
+     (70, 10, (0, [1]), None);
+     (71, 5, (1, [0]), Some (CScalarInt 7));
+     (80, 5, (1, [1]), Some (CScalarInt 8));
+     (89, 7, (1, [1]), Some (CScalarInt 8));
+     (90, 22, (1, [1]), Some (CScalarInt 8))]%N.
+Proof. exact C15FullExamples.nested_table. Qed.
+Print Assumptions C15_example_nested_table.
+
+(* the conclusion of C15_compile_trace_classified + C15_run_list_complete on that module: the run list holds a run of
+   process_card on the Abort card (else branch of the IfElse in the closure in the IfTrue in the While) at its index *)
+Theorem C15_example_nested_abort_has_run :
+  exists B fs gruns f r,
+    compile C15FullExamples.nested_module default_options = COk B /\
+    C15Full.gruns_full C15FullExamples.nested_module default_options B fs gruns /\
+    In (f, r) gruns /\ CompilerOwner.r_idx r = [2; 0; 1; 1; 0]%N /\ CompilerOwner.r_card r = CAbort /\
+    fi_ns f = [] /\ fi_index f = 0%nat.
+Proof. exact C15FullExamples.nested_abort_has_run. Qed.
+Print Assumptions C15_example_nested_abort_has_run.
